@@ -38,19 +38,21 @@ Definition substitute (E : aenv) (d : dict) (rho : Q) (source target : atom) : d
    for the numbers) *)
 Definition struct_of (d : dict) : struct := map (fun p => (snd p, FAtom (fst p))) d.
 
-(* neutron_sld(...) at one wavelength: (re, im, inc) *)
+(* neutron_sld(...) at one wavelength (the outs record carries re, im, inc; the per-atom pieces are
+   kept for the comparison rules) *)
 Definition sld_at (D : ndata) (s : struct) (density natural_density : option Q) (w : wl)
-  : option (expr * expr * expr) :=
+  : option (outs * list compE) :=
   match neutron_scattering D s density natural_density [w] with
-  | OVals [(o, _)] => Some (o_re o, o_im o, o_inc o)
+  | OVals [x] => Some x
   | _ => None
   end.
+Definition triple (x : outs * list compE) : expr * expr * expr := (o_re (fst x), o_im (fst x), o_inc (fst x)).
 
 Definition water (h : atom) : struct := [(2%Q, FAtom h); (1%Q, FAtom aO)].
 Definition WATER_DENSITY : Q := 9982 # 10000.      (* "H2O@0.9982n", "D2O@0.9982n" *)
 
-Record slds := mkSlds { x_H2O : expr * expr * expr; x_D2O : expr * expr * expr;
-                        x_H : expr * expr * expr; x_D : expr * expr * expr }.
+Record slds := mkSlds { x_H2O : outs * list compE; x_D2O : outs * list compE;
+                        x_H : outs * list compE; x_D : outs * list compE }.
 
 Definition D2O_slds (D : ndata) (s : struct) (density natural_density : option Q) (w : wl) : option slds :=
   do h2o <- sld_at D (water aH) None (Some WATER_DENSITY) w;
@@ -69,13 +71,11 @@ Definition mix3 (a b : expr * expr * expr) (f : expr) : expr * expr * expr :=
   match a, b with (a1, a2, a3), (b1, b2, b3) => (mixE a1 b1 f, mixE a2 b2 f, mixE a3 b3 f) end.
 
 Definition D2O_sld (x : slds) (volume_fraction D2O_fraction : Q) : expr * expr * expr :=
-  let solvent := mix3 (x_D2O x) (x_H2O x) (cq D2O_fraction) in
-  let solute := mix3 (x_D x) (x_H x) (cq D2O_fraction) in
+  let solvent := mix3 (triple (x_D2O x)) (triple (x_H2O x)) (cq D2O_fraction) in
+  let solute := mix3 (triple (x_D x)) (triple (x_H x)) (cq D2O_fraction) in
   mix3 solute solvent (cq volume_fraction).
 
-Definition re3 (t : expr * expr * expr) : expr := fst (fst t).
-Definition im3 (t : expr * expr * expr) : expr := snd (fst t).
-Definition inc3 (t : expr * expr * expr) : expr := snd t.
+Definition re3 (x : outs * list compE) : expr := o_re (fst x).
 
 (* D2O_match: (D2O_fraction, SLD at the match point) *)
 Definition D2O_match (x : slds) : expr * expr :=
